@@ -148,7 +148,13 @@ def r02_4(prog, rep):
             missing = [x for x in params if x not in used]
             if missing:
                 bad.append(missing)
-        rep.check(not bad, "R02.4", f.qualname, f.loc, "the hand-rolled codec memo is keyed on every configuration parameter", f"the codec memo key leaves out {bad[0]}: the first codec built for a type is served for every later encoder/decoder configuration", detail="memo-key")
+            # a parameter that enters the key only through a projection (`_coderkey(encoder)`, `id(x)`, an attribute of it)
+            # is not in the key: two different coders with one projection share an entry
+            direct = {x[1] for x in (key[1] if key[0] == "tuple" else (key,)) if x[0] == "param"}
+            projected = sorted(used - direct)
+            if projected and not missing:
+                bad.append([f"{x} itself (only a projection of it is in the key)" for x in projected])
+        rep.check(not bad, "R02.4", f.qualname, f.loc, "the hand-rolled codec memo is keyed on every configuration parameter", f"the codec memo key leaves out {(bad or ['?'])[0]}: the first codec built for a type is served for every later encoder/decoder configuration", detail="memo-key")
     else:
         rep.check(bool(memo) or True, "R02.4", f.qualname, f.loc, f"codec() is {'memoised by ' + memo + ' on all of its arguments' if memo else 'not memoised'}", detail="memo-key")
 
